@@ -232,6 +232,20 @@ def CC.step {α} [PNum α] (cc : CC α) (c : α) : CC α × Bool :=
   ({ cc with avg := newCost, count := count },
    decide (m = cc.window) && (decide (lo < newCost) && decide (newCost < hi)))
 
+/-- `processNewSolution` with the repair proposed for finding F481 (notes/C18-fix-F481.diff): the two thresholds are
+swapped when the running average is negative, so that they enclose it again.  Identical to `CC.step` for a
+non-negative average.  Used by the driver when the tree under test has the repair (header `neg=1`). -/
+def CC.stepSwap {α} [PNum α] (cc : CC α) (c : α) : CC α × Bool :=
+  let count := cc.count + 1
+  let m := min count cc.window
+  let newCost := (PNum.ofNat ((m + (sizeMod - 1)) % sizeMod) * cc.avg + c) / PNum.ofNat m
+  let lo0 := (PNum.ofNat 1 - cc.eps) * cc.avg
+  let hi0 := (PNum.ofNat 1 + cc.eps) * cc.avg
+  let lo := if cc.avg < PNum.ofNat 0 then hi0 else lo0
+  let hi := if cc.avg < PNum.ofNat 0 then lo0 else hi0
+  ({ cc with avg := newCost, count := count },
+   decide (m = cc.window) && (decide (lo < newCost) && decide (newCost < hi)))
+
 /-- the state of the world the conditions live in: impl states + the problem definition's callback -/
 structure World (α : Type) where
   st : St := {}
@@ -249,6 +263,14 @@ def reportCost {α} [PNum α] (w : World α) (c : α) : World α :=
   | none => w
   | some cc =>
     let r := cc.step c
+    { st := if r.2 then { w.st with term := upd w.st.term cc.impl true } else w.st, cb := some r.1 }
+
+/-- `reportCost` for either variant of `processNewSolution` (`swap = false`: the code as it is) -/
+def reportCostWith {α} [PNum α] (swap : Bool) (w : World α) (c : α) : World α :=
+  match w.cb with
+  | none => w
+  | some cc =>
+    let r := if swap then cc.stepSwap c else cc.step c
     { st := if r.2 then { w.st with term := upd w.st.term cc.impl true } else w.st, cb := some r.1 }
 
 /-! ### every interleaving: the operations that can happen to a world -/
